@@ -25,8 +25,9 @@ CLAIMED['C14'] = dict(
          'verified by the Hoare loop rule (invariant over ghost prefix sums + ghost element index, instantiated textually on the '
          'real loop) and the postconditions pin the whole resulting view to the remaining flat range, the return value to '
          'min(request,total), copied bytes to the matching flat positions (observing memcpy stub) and all accesses to the '
-         'elements\' extents.  extract_back(buf/iov), slice, memcpy_iov, pipe_iov and the owning iovector wrappers are covered only '
-         'by the native differential run of the real code against a flat-string oracle (13 operations), not proved.',
+         'elements\' extents.  Bounded stand-ins (not proofs): slice for at most 2 (thorough: 3) source elements and output slots, '
+         'extract_back(buf) for at most 2 elements (thorough).  extract_back(iov), memcpy_iov, pipe_iov and the owning iovector wrappers are '
+         'covered only by the native differential run of the real code against a flat-string oracle (17 operations), not proved.',
     note=TRUST + ' memcpy is a stub that checks ranges and tracks one solver-chosen byte; element buffers are abstract addresses '
          '(their memory is not modelled); prefix-sum monotonicity is a separately proved lemma; total length <= 2^62.',
     technique='deductive verification: Hoare loop rule instantiated on the real loops (cbmc + cvc5), ghost prefix sums and ghost indices; '
@@ -40,9 +41,11 @@ CLAIMED['C16'] = dict(
          'solver-chosen cell - the position every byte lands at, including zero fill and write-back of untouched bytes).  '
          'FixedSizeLinearFile::pio and VariableSizeLinearFile::pio are verified with the Hoare loop rule on the real loop over '
          'all_parts() against the abstract range split of C15: every sub-request goes to the sub-file holding the logical '
-         'position, at the right offset, inside the sub-file and the caller buffer; the return value is clipped to the composite size.',
+         'position, at the right offset, inside the sub-file and the caller buffer; the return value is clipped to the composite size.  A native '
+         'differential layer runs random in-scope request sequences on the real aligned adaptor (scalar and vectored, random iovec segmentation) '
+         'and on fixed / variable / striped composites over in-memory files against a plain-file oracle, checking alignment of every forwarded request.',
     note=TRUST + ' The underlying files are healthy plain files (no errors, no short transfers except the modelled failure flag in pio); '
-         'StripeFile::pio, the vectored (preadv2_mutable/pwritev2_mutable) paths and multi-operation sequences are not under contract; '
+         'StripeFile::pio, the vectored (preadv2_mutable/pwritev2_mutable) paths and multi-operation sequences are not under contract (native layer only); '
          'IOAlloc returns aligned memory when align_memory is set (assumed).',
     technique='deductive verification: loop-free full-domain harnesses and Hoare loop rule (cbmc + cadical) on mechanically lowered real code, '
               'underlay stubs whose preconditions are the alignment clause, ghost provenance tracking',
@@ -57,7 +60,9 @@ CLAIMED['C04'] = dict(
          'prepare_usleep (deadline unchanged, pushed once under thread.lock, queue/thread locks balanced), the wake-up pass '
          'resume_threads_inlined (Hoare loop rule on both real loops over an abstract heap with one tracked sleeper: EVERY sleeper whose '
          'deadline has passed is READY in the run queue after the pass, later deadlines stay asleep, nobody is resumed twice) and the '
-         'idler\'s engine-wait computation (never past any sleeper\'s deadline, capped).  Bounded: SleepQueue push / pop_front / pop (incl. removal from the '
+         'idler\'s engine-wait computation (never past any sleeper\'s deadline, capped), and the entry points thread_usleep / thread_usleep_defer / '
+         'do_thread_usleep(_defer) / yield_as_sleep (a thread marked by thread_shutdown() only ever takes the capped sleep; the wake-up reason is '
+         'consumed exactly once).  Bounded: SleepQueue push / pop_front / pop (incl. removal from the '
          'middle, absent thread) preserve the heap representation invariant and the set of sleepers and pop_front returns an earliest deadline, '
          'for every heap of at most 6 (quick) / 14 (thorough) sleepers with arbitrary 64-bit deadlines.',
     note=TRUST + ' The heap result is bounded, not a proof; the resume pass uses the heap-order property of front() as an assumed contract '
@@ -73,7 +78,9 @@ CLAIMED['C18'] = dict(
          'under m_lock, hence sequentially): a granted range overlaps no held range and keeps the set ordered; a request overlapping a held '
          'range is never granted and waits once; adjust_range succeeds only if the new range overlaps no other holder and keeps the order, '
          'and changes nothing when refused; unlock(offset,length) (Hoare loop rule on the erase loop) releases every held range inside the given '
-         'range and no other, unlock(handle) exactly that range.',
+         'range and no other, unlock(handle) exactly that range.  A native campaign runs random single-vCPU histories on the real RangeLock against a shadow '
+         'list.  KNOWN FINDING (known_findings.txt): requests that denote no byte (length 0, offset 2^64-1) are inserted although the ordering predicate is '
+         'not irreflexive for them.',
     note=TRUST + ' std::set is modelled as a sorted array with assumed lower_bound/emplace_hint/erase contracts; the set invariant is used at '
          'ghost-index instances.  Not decided: a waiter is woken when the conflicting range is unlocked and eventually acquires (condition '
          'variable + scheduler, ~Range() notifying); held empty ranges.',
@@ -120,7 +127,7 @@ CLAIMED['C02'] = dict(
          'queues the waiter while still holding the lock, in in-order mode passes on the tokens it was blocking when it fails, and also when '
          'it was resumed but must sleep again because a non-queued wait() took the tokens.  try_resume (Hoare loop rule over an abstract wait '
          'queue): the in-order pass stops only at an empty queue or at a head whose demand exceeds what is left, wakes only covered demands '
-         'with reason -1 under thread.lock.  A single-step lemma shows these transitions preserve count == initial + signalled - taken.  A native '
+         'with reason -1 under thread.lock (and thread_interrupt never replaces that parked reason; prepare_usleep queues the waiter under both locks: C04 kernels re-run here).  A single-step lemma shows these transitions preserve count == initial + signalled - taken.  A native '
          'campaign runs random single-vCPU histories on the real semaphore.  KNOWN FINDING (known_findings.txt): the out-of-order resume scan '
          'self-deadlocks on the wait-queue lock.',
     note=TRUST + ' NOT decided: no-lost-wake-up across vCPUs as a liveness property, safe destruction after wait returns, '
@@ -139,7 +146,8 @@ CLAIMED['C06'] = dict(
          'write is one of the four allowed transitions, try-lock results tell the truth about the transition made (failure only on an observed '
          'reason), lock() returns 0 only after a successful try and -1 without any transition, unlock of an unlocked lock is -1/ENOLCK; '
          'when an unlock makes the qrwlock free, a queued writer (exactly one) or, with no writer queued, ALL queued readers are resumed '
-         '(try_wake lowered, notifications under the spinlock).  '
+         '(try_wake lowered, notifications under the spinlock); both instantiations of do_lock, and lock(mode) pairs the exclusive try with cv_unique '
+         'and the shared try with cv_shared.  '
          'Lemma: the allowed transitions preserve writers-exclusive / readers-shared.',
     note=TRUST + ' NOT decided: admission after the last unlock as a liveness property, timeouts racing with admission across context '
          'switches, memory ordering (sequentially consistent model), the shared instantiation of do_lock; the rely (other threads perform only '
@@ -180,7 +188,9 @@ CLAIMED['C01'] = dict(
          'lock/try_lock succeed exactly when this call flipped the flag false -> true; ticket lock returns only when its own ticket is served '
          'and unlock advances serv by one; qspinlock (MCS): try_lock takes the lock only from the free state, lock enqueues its holder once, '
          'clears its own flag only before linking behind the predecessor and returns only after observing the hand-over, unlock does exactly one of '
-         'handing the lock to its linked successor or resetting the tail when nobody is queued.',
+         'handing the lock to its linked successor or resetting the tail when nobody is queued.  The hand-off relies on the scheduler kernels proved '
+         'under C04 and re-run here: thread_interrupt never replaces the reason parked for a woken waiter, prelocked_thread_interrupt wakes the '
+         'locked head exactly once.',
     note=TRUST + ' NOT decided: mutual exclusion across sleeping waiters as a whole-history property, timeouts/interrupts racing with the '
          'hand-off (the -1 paths may coincide with a hand-off), standby-queue wake-ups; sequentially consistent atomics; the rely on '
          'other threads is justified by the same contracts (closed world); invariant-per-step => all interleavings is a paper argument.',
@@ -211,8 +221,9 @@ CLAIMED['C10'] = dict(
          'woken by the event loop, otherwise its own interest is removed and errno is ETIMEDOUT / the interrupter\'s.  The dispatch loop '
          'wait_for_events(timeout, datacb, fdcb) (Hoare loop rule): a waiter is fired at most once per event, only for a direction the kernel '
          'reported AND that is still registered, with that direction\'s data; fired one-shot directions - exactly those - are disarmed.  '
-         'KernelSocketStream::read/write/readv/writev: all partial transfers of one call share one deadline = entry time + stream timeout.',
-    note=TRUST + ' NOT decided: exactly-once ordered bytes end to end (kernel sockets), engine/scheduler interplay as a history, BufStepV, '
+         'KernelSocketStream::read/write/readv/writev: all partial transfers of one call share one deadline = entry time + stream timeout.  '
+         'BufStepV (vectored step): consumes exactly the transferred bytes, drops only empty elements, and continues only with a non-empty first element.',
+    note=TRUST + ' NOT decided: exactly-once ordered bytes end to end (kernel sockets), engine/scheduler interplay as a history, '
          'do_epoll_wait\'s retry loop, epoll-ng / io_uring engines.',
     technique='deductive verification: Hoare loop rule + loop-free full-domain CBMC harnesses on mechanically lowered real code, system calls as stubs',
     design='§6 C10')
